@@ -5,7 +5,7 @@
 //!   listener <lid> <pos> <quat>            droplistener <lid>
 //!   strack <tid> <parent|main> <lid> <pos> <min> <max> <atten|none> <strength> <volume> <probe>
 //!   track <tid> <parent|main> <volume> <probe>          sound <tid> <l> <r>
-//!   setpos <tid> <pos> <tween>   setstr <tid> <f32> <tween>   lpos <lid> <pos> <tween>   lori <lid> <quat> <tween>
+//!   setpos <tid> <pos> <tween>   setstr <tid> <f32> <tween>   setvol <tid> <value> <tween>   lpos <lid> <pos> <tween>   lori <lid> <quat> <tween>
 //!   cb <frames>                            → `L R` per frame, then `p<tid> <distance|none>` per probed track per chunk, then `def|undef`
 //! self-contained op (one fresh manager; carries the implementation-side oracles, replayable alone):
 //!   scene <lpos> <lquat> <epos> <min> <max> <atten|none> <strength> <l> <r>   → `L R def|undef`
@@ -355,6 +355,14 @@ fn exec(case: &[String], out: &mut Out) {
 					"setstr" => {
 						if let Trk::Spatial(h) = s.tracks.get_mut(&pu(tok[1])).expect("track") {
 							h.set_spatialization_strength(p32(tok[2]), parse_tween(tok[3]));
+						}
+						out.put("ok");
+					}
+					"setvol" => {
+						// track volume through the handle: fixed or mapped from the listener distance, with a tween
+						match s.tracks.get_mut(&pu(tok[1])).expect("track") {
+							Trk::Spatial(h) => h.set_volume(val_db(&parse_val(tok[2])), parse_tween(tok[3])),
+							Trk::Plain(h) => h.set_volume(val_db(&parse_val(tok[2])), parse_tween(tok[3])),
 						}
 						out.put("ok");
 					}
@@ -1011,7 +1019,13 @@ fn gen_sequence(rng: &mut Rng, out: &mut Vec<String>, stats: &mut Stats) {
 			3 => {
 				let sp: Vec<u64> = tracks.iter().filter(|t| t.1).map(|t| t.0).collect();
 				if !sp.is_empty() {
-					let line = format!("setstr {} {} {}", rng.pick(&sp), o32(gen_strength(rng)), gen_tween(rng));
+					let line = if rng.chance(1, 2) {
+						format!("setstr {} {} {}", rng.pick(&sp), o32(gen_strength(rng)), gen_tween(rng))
+					} else {
+						// volume through the handle, half of the time mapped from the listener distance: after the
+						// tween the volume must keep following the distance (moving listener / emitter)
+						format!("setvol {} {} {}", rng.pick(&sp), gen_val(rng, true), gen_tween(rng))
+					};
 					push(out, stats, line);
 				}
 			}
